@@ -10,6 +10,7 @@ import (
 	"runtime"
 	"sort"
 	"strings"
+	"sync"
 
 	"golang.org/x/tools/go/ssa"
 )
@@ -525,6 +526,23 @@ func (e *Engine) fork(st *State, alts []Alt) {
 		return
 	}
 	e.stats.Forks++
+	if forkSites != nil {
+		f := st.top()
+		pos := ""
+		for k := f.pc; k >= 0 && k < len(f.block.Instrs); k-- {
+			if p := f.block.Instrs[k].Pos(); p.IsValid() {
+				pos = e.prog.Fset.Position(p).String()
+				break
+			}
+			if iff, ok := f.block.Instrs[k].(*ssa.If); ok && iff.Cond.Pos().IsValid() {
+				pos = e.prog.Fset.Position(iff.Cond.Pos()).String()
+				break
+			}
+		}
+		forkMu.Lock()
+		forkSites[f.fn.String()+" "+pos]++
+		forkMu.Unlock()
+	}
 	e.solver.SyncTo(st.pcList())
 	var feas []int
 	var models []map[string]uint64
@@ -569,6 +587,12 @@ func (e *Engine) fork(st *State, alts []Alt) {
 						e.fastChecked++
 						if r := e.solver.Check(a.cond); r != verdict && r != Unknown {
 							e.stats.Unsupported["fast-path/solver disagreement"]++
+							if os.Getenv("SYMGO_DEBUG") != "" {
+								fmt.Fprintf(os.Stderr, "DISAGREE fast=%v solver=%v cond=%s dom=%x mixed=%v sd=%x\n", verdict, r, a.cond, d.bits, d.mixed, sd.bits)
+								for _, t := range st.pcList() {
+									fmt.Fprintf(os.Stderr, "    pc %s\n", t)
+								}
+							}
 						}
 					}
 					if verdict == Unsat {
@@ -633,6 +657,36 @@ func (e *Engine) fork(st *State, alts []Alt) {
 
 type forkedSignal struct{}
 
+var forkSites map[string]int
+var forkMu sync.Mutex
+
+func init() {
+	if os.Getenv("SYMGO_FORKSITES") != "" {
+		forkSites = map[string]int{}
+	}
+}
+
+func dumpForkSites() {
+	if forkSites == nil {
+		return
+	}
+	type kv struct {
+		k string
+		v int
+	}
+	var l []kv
+	for k, v := range forkSites {
+		l = append(l, kv{k, v})
+	}
+	sort.Slice(l, func(i, j int) bool { return l[i].v > l[j].v })
+	for i, x := range l {
+		if i >= 25 {
+			break
+		}
+		fmt.Fprintf(os.Stderr, "forksite %8d %s\n", x.v, x.k)
+	}
+}
+
 func (e *Engine) runAlt(st *State, a Alt) {
 	a.then(st)
 }
@@ -683,6 +737,12 @@ func (e *Engine) recoverPath(st *State) {
 
 func (e *Engine) endPath(st *State) {
 	e.stats.Paths++
+	if os.Getenv("SYMGO_DUMP_PATHS") != "" {
+		fmt.Fprintf(os.Stderr, "PATH %v\n", st.decisions)
+		for _, t := range st.pcList() {
+			fmt.Fprintf(os.Stderr, "    %s\n", t)
+		}
+	}
 	for k := range st.covers {
 		e.stats.Covers[k]++
 	}
@@ -880,6 +940,9 @@ func (e *Engine) exec(st *State, f *Frame, ins ssa.Instruction) {
 	case *ssa.RunDefers:
 		e.runDefers(st)
 	case *ssa.Panic:
+		if e.initMode {
+			panic(engineErr{"explicit panic during package init"})
+		}
 		v := e.get(st, f, ins.X)
 		msg := e.describePanic(st, v)
 		e.startPanic(st, v, msg)
